@@ -47,12 +47,13 @@ structure K (H : HashFn) (w : World) : Prop where
   index : ∀ es, w.index = some es → AllBlobs H w es
   snaps : ∀ id c t es, commitAt H w id = some c → c.tree = some t → treeEntries H w t = some es → AllBlobs H w es
   parents : ∀ id c, commitAt H w id = some c → ∀ p ∈ c.parents, (commitAt H w p).isSome = true
+  hasTree : ∀ id c, commitAt H w id = some c → c.tree.isSome = true
 
 /-- the object store grows, no commit is new: the commit side of `K` carries over -/
 theorem K_grow (H : HashFn) (w w' : World) (hs : SnapsGood H w) (ho : OL w.objs w'.objs)
     (hnc : ∀ id c, commitAt H w' id = some c → commitAt H w id = some c)
     (hidx : ∀ es, w'.index = some es → AllBlobs H w' es) (hk : K H w) : K H w' := by
-  refine ⟨hidx, ?_, ?_⟩
+  refine ⟨hidx, ?_, ?_, fun id c hc => hk.hasTree id c (hnc id c hc)⟩
   · intro id c t es hc ht hte
     have hc0 := hnc id c hc
     obtain ⟨es0, he0, _⟩ := hs id c t hc0 ht
@@ -254,7 +255,7 @@ theorem K_commit (H : HashFn) (w : World) (idx : List Entry) (id data : Bytes) (
       (putObj (putObjs w (writeTree H idx).writes.reverse) id (Obj.encode .commit data)).objs := putObj_le _ _ _
   have hle : OL w.objs (putObj (putObjs w (writeTree H idx).writes.reverse) id (Obj.encode .commit data)).objs :=
     OL.trans (putObjs_le w _) hle1
-  refine ⟨?_, ?_, ?_⟩
+  refine ⟨?_, ?_, ?_, ?_⟩
   · intro es he
     rw [putObj_index', putObjs_index'] at he
     exact allBlobs_mono hle (hk.index es he)
@@ -311,6 +312,30 @@ theorem K_commit (H : HashFn) (w : World) (idx : List Entry) (id data : Bytes) (
         injection hdec with _ h2
         subst h2
         exact commitAt_mono H _ _ hle p (hpar c hparse p hp)
+      · exfalso
+        have : aget (putObj (putObjs w (writeTree H idx).writes.reverse) id (Obj.encode .commit data)).objs i = none := by
+          rw [aget_putObj_other _ _ _ i hi]; exact hex
+        exact get_none H _ i _ this hget
+  · intro i c hc
+    cases hex : aget (putObjs w (writeTree H idx).writes.reverse).objs i with
+    | some x =>
+      have hsame : aget (putObj (putObjs w (writeTree H idx).writes.reverse) id (Obj.encode .commit data)).objs i =
+          aget (putObjs w (writeTree H idx).writes.reverse).objs i := by
+        rw [hex]; exact putObj_le _ _ _ i x hex
+      rw [commitAt_congr H _ _ i hsame] at hc
+      exact hk0.hasTree i c hc
+    | none =>
+      obtain ⟨d', hget, hparse⟩ := commitAt_some_get H _ i c hc
+      by_cases hi : i = id
+      · subst hi
+        have hget' : aget (putObj (putObjs w (writeTree H idx).writes.reverse) i (Obj.encode .commit data)).objs i = some (Obj.encode .commit data) :=
+          aget_putObj_self _ _ _ (fun c0 hc0 => by rw [hex] at hc0; cases hc0)
+        have hdec := get_of_aget H _ _ _ _ hget' hget
+        rw [C01.decode_encode .commit data (by decide) hok.size] at hdec
+        injection hdec with hdec
+        injection hdec with _ h2
+        subst h2
+        rw [hok.treeLine c hparse]; rfl
       · exfalso
         have : aget (putObj (putObjs w (writeTree H idx).writes.reverse) id (Obj.encode .commit data)).objs i = none := by
           rw [aget_putObj_other _ _ _ i hi]; exact hex
@@ -555,7 +580,7 @@ theorem K_empty (H : HashFn) : K H {} := by
     split at h
     · rename_i d hg; exact get_none H {} id _ (by simp [aget]) hg
     · cases h
-  exact ⟨fun es h => by simp at h, fun id c t es h => (hnone id c h).elim, fun id c h => (hnone id c h).elim⟩
+  exact ⟨fun es h => by simp at h, fun id c t es h => (hnone id c h).elim, fun id c h => (hnone id c h).elim, fun id c h => (hnone id c h).elim⟩
 
 end W
 
